@@ -87,7 +87,15 @@ func C11(c *core.Ctx) {
 			if !c.Quick() || n%2 == 0 {
 				pim, _ := plainOf(cs["implicit"]).(map[string]interface{})
 				pex, _ := plainOf(cs["explicit"]).(map[string]interface{})
-				for _, pl := range []string{"named", "override", "extends", "extends-refined", "extends-other-dir", "included"} {
+				for _, pl := range []string{"named", "override", "extends", "extends-refined", "extends-other-dir", "included", "override-onto-rich", "extends-onto-rich"} {
+					if strings.HasSuffix(pl, "-onto-rich") {
+						// only the short list leaves its defaults implicit when it lands on an earlier definition: a mapping entry
+						// that omits a key does not mention it, and what a later side does not mention is kept (C04)
+						ia, _ := pim["services"].(map[string]interface{})["a"].(map[string]interface{})
+						if _, short := ia["depends_on"].([]interface{}); !short {
+							continue
+						}
+					}
 					li := c11Place(wd, "i", pl, pim)
 					le := c11Place(wd, "e", pl, pex)
 					if li == nil || le == nil {
@@ -275,6 +283,28 @@ func c11Place(wd, tag, placement string, doc map[string]interface{}) []namedDoc 
 		}
 		over := map[string]interface{}{"services": map[string]interface{}{"a": rest}}
 		return []namedDoc{{Name: main, Content: js(d)}, {Name: filepath.Join(wd, tag+"-over.yaml"), Content: js(over)}}
+	case "override-onto-rich", "extends-onto-rich":
+		// the service's attributes arrive on top of an earlier definition that already declares non-default values for the
+		// same dependency: what the later side leaves implicit must act like the default written out
+		rich := map[string]interface{}{"image": "img", "depends_on": map[string]interface{}{"db": map[string]interface{}{"condition": "service_healthy", "restart": true, "required": false}}}
+		rest := map[string]interface{}{}
+		for k, v := range a {
+			if k != "image" {
+				rest[k] = v
+			}
+		}
+		if _, has := rest["depends_on"]; !has {
+			return nil
+		}
+		if placement == "override-onto-rich" {
+			svcs["a"] = rich
+			over := map[string]interface{}{"services": map[string]interface{}{"a": rest}}
+			return []namedDoc{{Name: main, Content: js(d)}, {Name: filepath.Join(wd, tag+"-over.yaml"), Content: js(over)}}
+		}
+		svcs["abase"] = rich
+		rest["extends"] = map[string]interface{}{"service": "abase"}
+		svcs["a"] = rest
+		return []namedDoc{{Name: main, Content: js(d)}}
 	case "extends", "extends-refined":
 		svcs["abase"] = a
 		derived := map[string]interface{}{"extends": map[string]interface{}{"service": "abase"}}
